@@ -97,6 +97,16 @@ def allowed (s : Store) (now : Nat) (c : Client) (req : Option Nat) (pool : List
 /-- `min(max(lease.expire, min_expire_time), max_expire_time)` -/
 def clamp (d lo hi : Nat) : Nat := min (max d lo) hi
 
+/-- what is left, at the second clock read, of the lease this client already has for this address (0 if none) -/
+def remainingOf (s : Store) (c : Client) (x now' : Nat) : Nat :=
+  match rowOf s x with
+  | some r => if r.client == c then r.expiry - now' else 0
+  | none => 0
+
+/-- the duration `allocate_address` records and returns: the clamped duration, but never less than what is left of the
+    lease this client already has for this address, and never more than the maximum in force -/
+def leaseFor (d lo hi rem : Nat) : Nat := min (max (clamp d lo hi) rem) hi
+
 /-- the row written by `allocate_address` (second clock read `now'`) -/
 def grantRow (c : Client) (x now' L : Nat) (opts : List Nat) : Row :=
   { addr := x, client := c, start := now', expiry := now' + L, options := opts }
